@@ -49,6 +49,7 @@ func (valenc *structEncoder) Write(enc *Encoder, v interface{}) {
 	// that); wait until the goroutine that is building it has finished.
 	valenc.RLock()
 	fields := valenc.fields
+	metadata := valenc.metadata
 	valenc.RUnlock()
 	n := len(fields)
 	t := reflect.TypeOf(v)
@@ -60,7 +61,7 @@ func (valenc *structEncoder) Write(enc *Encoder, v interface{}) {
 	}
 	var r = enc.WriteStructType(st, func() {
 		enc.AddReferenceCount(n)
-		enc.buf = append(enc.buf, valenc.metadata...)
+		enc.buf = append(enc.buf, metadata...)
 	})
 	enc.SetReference(v)
 	p := reflect2.PtrOf(v)
@@ -100,6 +101,12 @@ func getNamedStructEncoder(t reflect.Type) ValueEncoder {
 
 func newNamedStructEncoder(t reflect.Type, name string, tag ...string) *structEncoder {
 	encoder := &structEncoder{}
+	if existing, ok := getNamedStructEncoder(t).(*structEncoder); ok && existing != nil && (len(tag) > 0 || name != t.Name()) {
+		// the type has an encoder already (built when a struct that contains it was
+		// registered, or by an earlier use), and the encoders of those structs hold it:
+		// the registration gives it its name and tags, it does not put another one beside it
+		encoder = existing
+	}
 	encoder.Lock()
 	defer encoder.Unlock()
 	registerNamedStructEncoder(t, encoder)
